@@ -3,7 +3,8 @@
 Four monitors, all on the REAL DataManager / FileManager / YamlInterface writing REAL files in a temp dir
 (MPF's own suite only ever uses the in-memory TestDataManager):
 
-  sched   schedule exploration.  The writer threads are real threads, but their time source is virtual
+  sched   schedule exploration (incl. "tick" cases: 2-4 managers dirty in the same tick, writer threads
+          interleaved statement by statement by a seeded random line scheduler, further rounds, shutdown).  The writer threads are real threads, but their time source is virtual
           (vlib/c15_sched.py: time.sleep / Event.wait of mpf.core.data_manager are served by a virtual clock,
           one thread runs at a time, delays are injected at statement boundaries through sys.monitoring LINE
           events).  Generated timelines of save_all / shutdown / one-shot I/O faults over 1-3 managers that
@@ -76,10 +77,10 @@ TIERS = {
 MIN_EVALS = {
     "quick": {"history": 4000, "shutdown_durability": 1000, "write_failure": 200, "crash_atomicity": 80,
               "error_atomicity": 130, "error_then_later_save": 130, "reboot_file": 80, "reboot_equal": 200,
-              "reboot_expiry": 60, "reboot_saved_state": 60},
+              "reboot_expiry": 60, "reboot_saved_state": 60, "overlap_durability": 250},
     "thorough": {"history": 80000, "shutdown_durability": 20000, "write_failure": 4000, "crash_atomicity": 600,
                  "error_atomicity": 1000, "error_then_later_save": 1000, "reboot_file": 1500, "reboot_equal": 4000,
-                 "reboot_expiry": 1200, "reboot_saved_state": 1200},
+                 "reboot_expiry": 1200, "reboot_saved_state": 1200, "overlap_durability": 5000},
 }
 SHRINK_KEYS = ["delays", "ops2", "ops"]
 
@@ -140,8 +141,37 @@ def _gap(rng, mw):
                        2 * mw + 1.3, rng.uniform(0, 2 * mw + 2.2), rng.uniform(0, mw)])
 
 
+def _gen_tick(rng):
+    """Several data managers of one process get dirty in the SAME tick (end of game: audits + earnings +
+    high scores + machine vars; shutdown releasing all writers at once), their writer threads are interleaved
+    statement by statement by the seeded random line scheduler, then more rounds and the shutdown follow."""
+    from vlib import c15_values as V
+    n = rng.choice([2, 3, 3, 4])
+    mw = [rng.choice([0.02, 0.1, 0.2, 1.0]) for _ in range(n)]
+    ops = []
+    t = max(mw) + rng.choice([0.05, 0.3, 1.2])
+    rounds = rng.choice([2, 2, 3, 4])
+    for r in range(rounds):
+        ms = list(range(n)) if (r == rounds - 1 or rng.random() < 0.5) else rng.sample(range(n), rng.randint(2, n))
+        rng.shuffle(ms)
+        for m in ms:
+            ops.append({"t": round(t, 6), "op": "save", "m": m, "body": V.gen_body(rng, rng.choice([0, 0, 300, 5000])),
+                        "alias": False, "first": rng.random() < 0.5})
+            t += rng.choice([0.0, 0.0, 0.0, 1e-4])
+        if r < rounds - 1:
+            t += rng.choice([0.0005, 0.01, 0.3, max(mw) * 0.5, max(mw) + 1.3, 2.5])
+    ops.append({"t": round(t + rng.choice([0.0, 1e-4, 0.01, max(mw) * 0.5, max(mw) + 2.5, 4.0]), 6), "op": "stop",
+                "first": rng.random() < 0.5})
+    return {"mode": "sched", "n": n, "mw": mw, "deep": False, "ops": ops, "delays": [],
+            "jitter": {"p": rng.choice([0.1, 0.25, 0.5, 0.8]), "seed": rng.randrange(1 << 30),
+                       "dts": rng.choice([[0.0], [0.0, 0.0, 0.0005], [0.0, 0.0005, 0.003, 0.02], [0.0, 0.0, 0.0, 0.3]])},
+            "tie": rng.randrange(1 << 30), "initial": False}
+
+
 def _gen_sched(rng):
     from vlib import c15_values as V
+    if rng.random() < 0.25:
+        return _gen_tick(rng)
     n = rng.choice([1, 1, 2, 2, 3])
     mw = [rng.choice([0.02, 0.1, 0.2, 1.0, 1.0]) for _ in range(n)]
     deep = n >= 2 and rng.random() < 0.3
@@ -337,7 +367,7 @@ def _run_sched(case):
     ops = [o for o in case.get("ops", []) if isinstance(o, dict) and "op" in o]
     ops = sorted(ops, key=lambda o: o.get("t", 0.0))
     horizon = 60.0 + 40.0 * max(mw) + 3.0 * sum(float(d[3]) for d in delays)
-    clauses = {"history": 0, "shutdown_durability": 0, "write_failure": 0}
+    clauses = {"history": 0, "shutdown_durability": 0, "write_failure": 0, "overlap_durability": 0}
     obs = {"sched_cases": 1, "handoffs": 0, "delays_hit": 0, "failed_writes": 0, "injected_failed_writes": 0,
            "writer_never_exited": 0, "excused_saves": 0, "scheduling_point_observations": 0, "max_concurrent_saves": 0,
            "watchdog_inconclusive": 0, "writes": 0, "resaves_of_unchanged_content": 0, "type_only_changes": 0}
@@ -350,7 +380,7 @@ def _run_sched(case):
     phase_at_stop = []
     try:
         eng = Engine(base, ["dm%d" % i for i in range(n)], mw, delays=delays, tie_seed=case.get("tie", 0),
-                     deep=bool(case.get("deep")), initial=initial)
+                     deep=bool(case.get("deep")), initial=initial, jitter=case.get("jitter"))
         if initial:     # what the manager loaded at construction must be what was on disk
             for i in range(n):
                 clauses["history"] += 1
@@ -417,6 +447,8 @@ def _run_sched(case):
                 obs["excused_saves"] += 1      # its own write hit an injected I/O error
                 continue
             clauses["shutdown_durability"] += 1
+            if eng.max_inflight >= 2:
+                clauses["overlap_durability"] += 1     # ... judged after two saves were inside FileManager.save at once
             v, sig, detail, raw = eng.on_disk(m)
             if v != lv:
                 viol.append({"clause": "shutdown_durability", "sig": _diagnose(eng, m, False, lv, v), "detail": {
@@ -432,6 +464,10 @@ def _run_sched(case):
                     hv = {"clause": "history", "sig": "C15:is_busy_race_concurrent_dumps",
                           "detail": dict(hv["detail"], observed=hv["sig"], max_concurrent_saves=eng.max_inflight)}
                 viol.append(hv)
+        obs["jitter_delays"] = eng.sched.jitter_hits
+        obs["overlapping_save_cases"] = 1 if eng.max_inflight >= 2 else 0
+        if eng.is_busy() and eng.inflight == 0:
+            obs["is_busy_set_at_quiescence"] = 1
         obs["handoffs"] = eng.sched.handoffs
         obs["delays_hit"] = eng.sched.delays_hit
         obs["failed_writes"] = len(eng.failures)
@@ -452,9 +488,9 @@ def _run_sched(case):
                      "stop": "X"}.get(o["op"], "?") for o in ops)
     fk = next((o.get("kind") for o in ops if o["op"] == "fault_on"), "-")
     gaps = "".join(_bucket(b.get("t", 0) - a.get("t", 0)) + "," for a, b in zip(ops, ops[1:]))
-    shape = "S|n%d|%s|%s|%s|fault=%s|deep=%d|d%d|stop@%s" % (
+    shape = "S|n%d|%s|%s|%s|fault=%s|deep=%d|d%d|j%s|stop@%s" % (
         n, ",".join(_bucket(x) for x in mw), kinds, gaps, fk, bool(case.get("deep")), min(len(delays), 3),
-        ",".join(str(p) for p in phase_at_stop))
+        (case.get("jitter") or {}).get("p", 0), ",".join(str(p) for p in phase_at_stop))
     trace = (eng.events[-25:] + eng.sched.trace[-10:]) if eng is not None else []
     return {"violations": _uniq(viol), "clauses": clauses, "shape": shape, "obs": obs, "trace": trace,
             "nontrivial": clauses["history"] > 0 and clauses["shutdown_durability"] > 0}
@@ -478,6 +514,9 @@ def _diagnose(eng, m, probe, want=None, got=None, kind="fresh"):
         return "C15:save_lost_to_spontaneous_write_error"
     if eng.failures and eng.is_busy() and eng.inflight == 0:
         return "C15:is_busy_stuck_after_failed_write"
+    if eng.is_busy() and eng.inflight == 0:
+        # no write ever failed, nobody is inside FileManager.save, yet the flag is set: every writer spins
+        return "C15:is_busy_stuck_after_overlapping_saves" if eng.max_inflight >= 2 else "C15:is_busy_stuck_without_writer"
     if eng.failures and sum(1 for q, mm, r in eng.save_order if mm == m and r == want) >= 2:
         return "C15:resave_of_failed_content_dropped"   # same content handed again after its write had failed
     if probe:
@@ -1172,10 +1211,12 @@ def _run_real_inproc(case):
             if time.monotonic() > t_end:
                 inconclusive = "watchdog: writer threads did not exit within 30 s wall"
                 break
-            if st["fail"] and getattr(FM, "is_busy", False) and st["inflight"] == 0:
+            if getattr(FM, "is_busy", False) and st["inflight"] == 0:
                 stuck_since = stuck_since or time.monotonic()
                 if time.monotonic() - stuck_since > 4.0:
-                    inconclusive = "writers spin on FileManager.is_busy after a failed write (no quiescence)"
+                    inconclusive = ("writers spin on FileManager.is_busy with nobody inside FileManager.save "
+                                    "(failed writes: %d, max concurrent saves: %d): no quiescence" % (
+                                        len(st["fail"]), st["max"]))
                     break
             else:
                 stuck_since = None
